@@ -7,6 +7,7 @@ package main
 // write (a prefix of the data is written); no fsync modelling.
 
 import (
+	"strings"
 	"fmt"
 	"go/types"
 	"sort"
@@ -434,6 +435,30 @@ func initOsStubs() {
 	}
 	reg("os.Stat", stat)
 	reg("os.Lstat", stat)
+	reg("path/filepath.Glob", func(ex *Exec, fn *ssa.Function, args []Value, caller *Frame) Value {
+		// patterns of the form <literal prefix>* (one star, at the end, no
+		// other metacharacter): the files whose path begins with the prefix
+		// and has no further separator
+		pat := concArg(ex, args[0], "filepath.Glob pattern")
+		if !strings.HasSuffix(pat, "*") || strings.ContainsAny(pat[:len(pat)-1], "*?[\\") {
+			ex.unsupported("filepath.Glob pattern other than <prefix>*")
+		}
+		prefix := pat[:len(pat)-1]
+		var out []Value
+		for _, f := range ex.fs().files {
+			if !f.exists {
+				continue
+			}
+			p, ok := f.path.Concrete()
+			if !ok {
+				ex.unsupported("filepath.Glob over symbolic file names")
+			}
+			if strings.HasPrefix(p, prefix) && !strings.Contains(p[len(prefix):], "/") {
+				out = append(out, f.path)
+			}
+		}
+		return Tuple{Slice{A: out, Nil: len(out) == 0}, Iface{}}
+	})
 	reg("os.ReadFile", func(ex *Exec, fn *ssa.Function, args []Value, caller *Frame) Value {
 		name := strArg(ex, args[0], "os.ReadFile")
 		if ex.hasNUL(name) {
